@@ -1,6 +1,7 @@
 import FitProps.EndToEndLemmas
 import FitProps.EndToEndDescLemmas
 import FitProps.EndToEndBackLemmas
+import FitModel.ValidatorArith
 /-!
 # C01 — Encode then decode returns the messages that were written (END TO END: protocol values, the real validator)
 
@@ -19,12 +20,19 @@ model returns the interpretation of the same items), the C06 lemmas at the value
 `reread_eq_normal`), and the agreement of encoder and decoder on timestamps (`ts_marshal`) and field descriptions
 (`desc_sync`). Lemmas: FitProps/EndToEnd*Lemmas.lean.
 
-PROPERTY THEOREMS: C01_e2e_actual, C01_e2e_roundtrip_partial, C01_e2e_reencode_partial, C01_e2e_full_fails_arr,
-C01_e2e_full_fails_zero, C01_e2e_full_fails_fffd, C01_e2e_reencode_boolarr_roundtrip, C01_e2e_value_independent_of_byte_order
+PROPERTY THEOREMS: C01_e2e_actual, C01_e2e_roundtrip_partial, C01_e2e_reencode_partial, C01_e2e_retained,
+C01_e2e_dec_output_normal, C01_e2e_reencode, C01_e2e_reencode_normal, C01_e2e_full_fails_arr, C01_e2e_full_fails_zero,
+C01_e2e_full_fails_fffd, C01_e2e_reencode_fails_undersized, C01_e2e_reencode_fails_pieces, C01_e2e_reencode_fails_f64dev,
+C01_e2e_reencode_boolarr_roundtrip, C01_e2e_value_independent_of_byte_order
 
 Findings of the pinned tree (open, see known_findings.jsonl): KF-C01-arr (F03), KF-C01-zero (F04), KF-C01-fffd (F02): the
 full statement `C01_e2e_roundtrip_full` is false on them (`C01_e2e_full_fails_*`); `C01_e2e_roundtrip_partial` excludes
 exactly these three classes, `C01_e2e_actual` says what the code returns on ALL accepted inputs, the classes included.
+The last sentence of the property (re-encoding what a decoder returned) is `C01_e2e_reencode`, a theorem about the output of
+`decodeChain` on ARBITRARY bytes (lemmas: FitProps/EndToEndBack*Lemmas.lean: the shape of `UnmarshalValue`'s answers, an
+invariant of the decoder-API model over all byte streams, `C10_validate_filter` on decoded messages); it excludes three
+classes of decoder output — KF-C01-undersized, KF-C01-strpieces, KF-C01-f64dev — on which `C01_e2e_reencode_full` is false
+(`C01_e2e_reencode_fails_*`); in the first two only the scalar/array shape of a value differs (`C01_e2e_reencode_normal`).
 -/
 namespace Fit.C01
 open Fit.E2E Fit.Wire Fit.Msg Fit.Value
@@ -323,6 +331,17 @@ theorem C01_e2e_reencode_normal (c : Cfg) (o : Fit.DecApi.Opts) (input : List Na
     (fun kept hkm => by obtain ⟨f, hf, rfl⟩ := hk kept hkm; exact (hall f hf).1) hsmall
     (fun kept hkm => by obtain ⟨f, hf, rfl⟩ := hk kept hkm; exact (hall f hf).2.1)
 
+/-- the last sentence at full strength: `C01_e2e_reencode` without the class hypotheses `hR`, `hN` -/
+def C01_e2e_reencode_full : Prop :=
+  ∀ (c : Cfg) (o : Fit.DecApi.Opts) (input : List Nat) (fits : List Fit.DecApi.Fit) (e : Option Fit.DecApi.Out)
+    (kepts : List (List Message)) (bytes : List Nat),
+    decodeChain o input = (fits, e) → fits ≠ [] → encodeChain c (backFiles fits) 0 = (kepts, bytes, none) →
+    CfgOK c (backFiles fits) → (∀ b ∈ input, b < 256) → PlainOpts o → facOKB o.fac = true → keysKnown o.fac = true →
+    bytes.length < 4294967296 →
+    kepts = fits.map (fun f => retained c.vo.omitInvalid {} f.msgs) ∧
+    ∃ seqs, decodeValues o bytes = (seqs, none) ∧
+      AllMatch (fun kept ns => seqMatches idValue false o.fac c.w.arch {} kept ns = true) kepts seqs
+
 /-- the full-strength statement: the round trip to the normal form for EVERY accepted input of the domain -/
 def C01_e2e_roundtrip_full : Prop :=
   ∀ (c : Cfg) (o : Fit.DecApi.Opts) (files : List FileIn) (kepts : List (List Message)) (bytes : List Nat),
@@ -395,6 +414,126 @@ theorem C01_e2e_full_fails_fffd : ¬ C01_e2e_roundtrip_full :=
     (encodeChain (kfCfg false) fffdFiles 0).2.1 [⟨0, [⟨8, 7, .string [0x61, 0x62]⟩], []⟩]
     (by decide +kernel) (by decide) (by decide) (by decide +kernel) (by decide +kernel)
     (by decide +kernel) (by decide +kernel)
+
+/-! ### the three classes of decoder output: witnesses on which the full statement fails (evaluated by the kernel) -/
+
+/-- hrv.time as a uint16 array, record.heart_rate, developer_data_id.developer_data_index, and the members of
+field_description the decoder and the validator read (as plain one-byte fields, like the standard factory) -/
+def wFac : Fit.DecApi.Factory :=
+  [⟨78, 0, ⟨true, 0x84, false, true, false, []⟩⟩, ⟨20, 3, ⟨true, 0x02, false, false, false, []⟩⟩,
+   ⟨207, 3, ⟨true, 0x02, false, false, false, []⟩⟩,
+   ⟨206, 0, ⟨true, 0x02, false, false, false, []⟩⟩, ⟨206, 1, ⟨true, 0x02, false, false, false, []⟩⟩,
+   ⟨206, 2, ⟨true, 0x02, false, false, false, []⟩⟩, ⟨206, 6, ⟨true, 0x02, false, false, false, []⟩⟩,
+   ⟨206, 7, ⟨true, 0x01, false, false, false, []⟩⟩]
+def wOpts : Fit.DecApi.Opts := { chk := true, exp := false, fac := wFac }
+
+/-- 12-byte header, definition of message 78 (hrv) with field 0 (time: a uint16 ARRAY) of size ONE byte, one record -/
+def inUndersized : List Nat :=
+  [0x0c, 0x20, 0x9a, 0x52, 0x0b, 0, 0, 0, 0x2e, 0x46, 0x49, 0x54, 0x40, 0, 0, 0x4e, 0, 1, 0, 1, 0x84, 0, 7, 0xd1, 0xbb]
+/-- message 65280 (no profile entry) with a string field of 4 bytes "a\0\xff\0" (two terminated segments, the second one
+not UTF-8) and a uint8 -/
+def inPieces : List Nat :=
+  [0x0c, 0x20, 0x9a, 0x52, 0x12, 0, 0, 0, 0x2e, 0x46, 0x49, 0x54, 0x40, 0, 0, 0, 0xff, 0x02, 0x01, 0x04, 0x07, 0x02, 0x01, 0x02,
+   0x00, 0x61, 0x00, 0xff, 0x00, 0x01, 0x03, 0x14]
+/-- developer_data_id 0; field_description (index 0, number 1, base type float64, scale 2, offset 0); a record with
+heart_rate 70 and that developer field = 1.5 -/
+def inF64 : List Nat :=
+  [0x0e, 0x20, 0x9a, 0x52, 0x3d, 0, 0, 0, 0x2e, 0x46, 0x49, 0x54, 0x9d, 0x36, 0x40, 0, 0, 0xcf, 0, 1, 3, 1, 2, 0, 0,
+   0x41, 0, 0, 0xce, 0, 5, 0, 1, 2, 1, 1, 2, 2, 1, 2, 6, 1, 2, 7, 1, 1, 1, 0, 1, 0x89, 2, 0,
+   0x62, 0, 0, 0x14, 0, 1, 3, 1, 2, 1, 1, 8, 0, 2, 0x46, 0, 0, 0, 0, 0, 0, 0xf8, 0x3f, 0xe8, 0x1b]
+/-- the validator with the real arithmetic of `scaleoffset.DiscardValue` (the binary64 model of C12) -/
+def cfgArith : Cfg := { kfCfg false with D := Fit.ValidatorA.D }
+
+theorem wOpts_plain : PlainOpts wOpts := ⟨rfl, rfl, rfl, rfl⟩
+
+/-- what the full statement would demand of an input whose decoding, re-encoding and second decoding the kernel evaluated -/
+theorem reencode_fails_of (c : Cfg) (input : List Nat) (fits : List Fit.DecApi.Fit) (kept : List Message) (bytes : List Nat)
+    (seq : List NMsg) (hdec : decodeChain wOpts input = (fits, none)) (hne : fits ≠ [])
+    (henc : encodeChain c (backFiles fits) 0 = ([kept], bytes, none)) (hc : CfgOK c (backFiles fits))
+    (hb : ∀ b ∈ input, b < 256) (hsmall : bytes.length < 4294967296)
+    (hdec2 : decodeValues wOpts bytes = ([seq], none))
+    (hbad : ([kept] == fits.map (fun f => retained c.vo.omitInvalid {} f.msgs) && seqMatches idValue false wFac c.w.arch {} kept seq) = false) :
+    ¬ C01_e2e_reencode_full := by
+  intro h
+  obtain ⟨h0, seqs, h1, h2⟩ := h c wOpts input fits none [kept] bytes hdec hne henc hc hb wOpts_plain (by decide +kernel)
+    (by decide +kernel) hsmall
+  rw [hdec2] at h1
+  simp only [Prod.mk.injEq, and_true] at h1
+  subst h1
+  cases h2 with
+  | cons hab _ =>
+    have h3 : seqMatches idValue false wFac c.w.arch {} kept seq = true := hab
+    rw [← h0, h3] at hbad
+    simp at hbad
+
+/-- **KF-C01-undersized.** The byte 07 under a definition that gives hrv.time (a uint16 array) one byte decodes as the SCALAR
+`uint16 7` in an array field; the encoder accepts the decoded message and writes two bytes; decoding again returns
+`[]uint16{7}`: not the same message. -/
+theorem C01_e2e_reencode_fails_undersized : ¬ C01_e2e_reencode_full :=
+  reencode_fails_of (kfCfg false) inUndersized (decodeChain wOpts inUndersized).1
+    (encodeChain (kfCfg false) (backFiles (decodeChain wOpts inUndersized).1) 0).1.head!
+    (encodeChain (kfCfg false) (backFiles (decodeChain wOpts inUndersized).1) 0).2.1
+    [⟨78, [⟨0, 0x84, .sliceUint16 [7]⟩], []⟩]
+    (by decide +kernel) (by decide +kernel) (by decide +kernel) (kfCfg_ok false _ (by decide +kernel)) (by decide +kernel)
+    (by decide +kernel) (by decide +kernel) (by decide +kernel)
+
+example : decodeValues wOpts inUndersized = ([[⟨78, [⟨0, 0x84, .uint16 7⟩], []⟩]], none) ∧
+    kfUndersized ((decodeChain wOpts inUndersized).1.head!).msgs = true := by decide +kernel
+
+/-- **KF-C01-strpieces.** The bytes "a\0\xff\0" in a string field without profile entry decode as `[]string{"a"}` (two
+terminated segments counted, one survives the UTF-8 cleaning); written again they are "a\0" and decode as the scalar
+`"a"`. -/
+theorem C01_e2e_reencode_fails_pieces : ¬ C01_e2e_reencode_full :=
+  reencode_fails_of (kfCfg false) inPieces (decodeChain wOpts inPieces).1
+    (encodeChain (kfCfg false) (backFiles (decodeChain wOpts inPieces).1) 0).1.head!
+    (encodeChain (kfCfg false) (backFiles (decodeChain wOpts inPieces).1) 0).2.1
+    [⟨65280, [⟨1, 0x07, .string [0x61]⟩, ⟨2, 0x02, .uint8 1⟩], []⟩]
+    (by decide +kernel) (by decide +kernel) (by decide +kernel) (kfCfg_ok false _ (by decide +kernel)) (by decide +kernel)
+    (by decide +kernel) (by decide +kernel) (by decide +kernel)
+
+example : decodeValues wOpts inPieces = ([[⟨65280, [⟨1, 0x07, .sliceString [[0x61]]⟩, ⟨2, 0x02, .uint8 1⟩], []⟩]], none) ∧
+    kfPieces ((decodeChain wOpts inPieces).1.head!).msgs = true := by decide +kernel
+
+/-- **KF-C01-f64dev** (root: KF-C10-2). A developer field described as float64 with scale 2, offset 0 holds 1.5; the decoder
+returns the raw 1.5; the validator (real arithmetic: `Fit.ValidatorA.D`) takes the float64 for a scaled value and "restores"
+it to (1.5 + 0) · 2 = 3.0, which is what is written and comes back: validation did not retain the decoded value. -/
+theorem C01_e2e_reencode_fails_f64dev : ¬ C01_e2e_reencode_full :=
+  reencode_fails_of cfgArith inF64 (decodeChain wOpts inF64).1
+    (encodeChain cfgArith (backFiles (decodeChain wOpts inF64).1) 0).1.head!
+    (encodeChain cfgArith (backFiles (decodeChain wOpts inF64).1) 0).2.1
+    (decodeValues wOpts (encodeChain cfgArith (backFiles (decodeChain wOpts inF64).1) 0).2.1).1.head!
+    (by decide +kernel) (by decide +kernel) (by decide +kernel)
+    ⟨⟨Or.inl rfl, by show 0 < 4; decide, by show 4 ≤ 16; decide, fun h => by cases h⟩, by show 21158 < 65536; decide, by decide +kernel⟩
+    (by decide +kernel) (by decide +kernel) (by decide +kernel) (by decide +kernel)
+
+example : ((decodeChain wOpts inF64).1.head!).msgs.map proj ==
+      [⟨207, [⟨3, 2, .uint8 0⟩], []⟩,
+       ⟨206, [⟨0, 2, .uint8 0⟩, ⟨1, 2, .uint8 1⟩, ⟨2, 2, .uint8 0x89⟩, ⟨6, 2, .uint8 2⟩, ⟨7, 1, .int8 0⟩], []⟩,
+       ⟨20, [⟨3, 2, .uint8 70⟩], [⟨1, 0, .float64 0x3FF8000000000000⟩]⟩] ∧
+    kfF64Dev cfgArith.vo {} ((decodeChain wOpts inF64).1.head!).msgs = true ∧
+    ((encodeChain cfgArith (backFiles (decodeChain wOpts inF64).1) 0).1.head!.map literal).getLast? ==
+      some ⟨20, [⟨3, 2, .uint8 70⟩], [⟨1, 0, .float64 0x4008000000000000⟩]⟩ := by decide +kernel
+
+/-- the witnesses lie in the classes `C01_e2e_reencode` excludes, one each, and in no other -/
+example :
+    (kfUndersized ((decodeChain wOpts inUndersized).1.head!).msgs, kfPieces ((decodeChain wOpts inUndersized).1.head!).msgs,
+      kfF64Dev (kfCfg false).vo {} ((decodeChain wOpts inUndersized).1.head!).msgs) = (true, false, false) ∧
+    (kfUndersized ((decodeChain wOpts inPieces).1.head!).msgs, kfPieces ((decodeChain wOpts inPieces).1.head!).msgs,
+      kfF64Dev (kfCfg false).vo {} ((decodeChain wOpts inPieces).1.head!).msgs) = (false, true, false) ∧
+    (kfUndersized ((decodeChain wOpts inF64).1.head!).msgs, kfPieces ((decodeChain wOpts inF64).1.head!).msgs,
+      kfF64Dev cfgArith.vo {} ((decodeChain wOpts inF64).1.head!).msgs) = (false, false, true) := by decide +kernel
+
+/-- non-vacuity of `C01_e2e_reencode`: the stream of `inPieces` with both segments valid ("a\0b\0"; checksum ignored) meets
+every hypothesis — it decodes, the encoder accepts what was decoded, no class — and indeed comes back as it was decoded:
+`[]string{"a","b"}` in the field without profile entry -/
+def inGood : List Nat := inPieces.set 27 0x62
+def wOptsNoChk : Fit.DecApi.Opts := { wOpts with chk := false }
+example : (decodeChain wOptsNoChk inGood).2 = none ∧ (decodeChain wOptsNoChk inGood).1 ≠ [] ∧
+    (encodeChain (kfCfg false) (backFiles (decodeChain wOptsNoChk inGood).1) 0).2.2 = none ∧
+    (∀ f ∈ (decodeChain wOptsNoChk inGood).1, kfF64Dev (kfCfg false).vo {} f.msgs = false ∧ kfUndersized f.msgs = false ∧ kfPieces f.msgs = false) ∧
+    decodeValues wOptsNoChk inGood = ([[⟨65280, [⟨1, 0x07, .sliceString [[0x61], [0x62]]⟩, ⟨2, 0x02, .uint8 1⟩], []⟩]], none) ∧
+    decodeValues wOptsNoChk (encodeChain (kfCfg false) (backFiles (decodeChain wOptsNoChk inGood).1) 0).2.1 =
+      decodeValues wOptsNoChk inGood := by decide +kernel
 
 /-! ### KF-C01-boolarr (repaired in /repo 5da5106): the former witness -/
 
